@@ -2,6 +2,7 @@
    evaluate it at the given isotopomer states -/
 import Driver.Wire
 import MxlVerif.Model.C05
+import MxlVerif.Model.C16
 open Lean Mxl Mxl.Wire Mxl.C05
 namespace Driver.H_c05
 
@@ -113,7 +114,10 @@ def handle (j : Json) : Except String Json := do
     | some nmaps =>
       if (resultJ (buildModel base lv nmaps init)).compress == (resultJ (buildModelI base lv maps init)).compress
       then "same" else "differs"
-  let common := [("distinct", distinct), ("dims", dims), ("queries", Json.arr qres.toArray), ("isos", isosJ),
+  -- net coefficient of every base variable in every base reaction (`netOf`, the steady-state premise)
+  let net := Json.arr (base.rxns.flatMap fun r => base.vars.map fun kv =>
+    Json.arr #[.str r.name, .str kv.1, intJ (netOf base r.name kv.1)]).toArray
+  let common := [("distinct", distinct), ("dims", dims), ("net", net), ("queries", Json.arr qres.toArray), ("isos", isosJ),
     ("nat", Json.str nat)]
   match buildModelI base lv maps init with
   | .error e => pure (Json.mkObj ([("err", errJ e)] ++ common))
@@ -129,7 +133,22 @@ def handle (j : Json) : Except String Json := do
     let prodAgree := sts.map fun st => Json.arr (base.rxns.map fun r =>
       Json.arr #[.str r.name,
         .bool (r.rate (totalsEnv lv (m.env st)) == listProd (r.args.map (totalsEnv lv (m.env st))))]).toArray
+    -- the base fluxes at the totals (`fluxAtTotals`: the `fluxes` the linear mapper is given)
+    let fluxes := sts.map fun st =>
+      assocJ ratJ (base.rxns.map fun r => (r.name, fluxAtTotals base lv (m.env st) r.name))
+    -- label flux per position (`C16_position_flux`, left-hand side): for every mapped reaction and padded
+    -- position `l`, the summed rates of its isotopomer reactions whose rate suffix is labelled at `l`
+    let posflux := sts.map fun st => Json.arr (base.rxns.flatMap fun r =>
+      match maps.lookup r.name with
+      | none => []
+      | some _ =>
+        let grp := m.rxns.filter fun rx => rx.name.base == r.name && rx.name.lab.isSome
+        (List.range (max (nSub lv r) (nProd lv r))).map fun l =>
+          Json.arr #[.str r.name, toJson l,
+            ratJ ((grp.map fun rx => Mxl.C16.ind ((Mxl.C16.suffixOf rx).getD l false) * rx.rate (m.env st)).sum)]).toArray
     pure (Json.mkObj ([("ok", Json.mkObj (modelJ m ++ [
+      ("fluxes", .arr fluxes.toArray),
+      ("posflux", .arr posflux.toArray),
       ("rhs", .arr rhs.toArray),
       ("sums", .arr sums.toArray),
       ("base_rhs", .arr baseRhs.toArray),
